@@ -48,11 +48,14 @@ def _isna(value: pd.Series) -> pd.Series:
 
 def _make_logical(func: Callable) -> Callable:
     def logical_func(x, axis=0):
-        return np.where(
+        result = np.where(
             np.logical_or.reduce(np.isnan(x), axis=axis),
             np.nan,
             func.reduce(x, axis=axis),
         )
+        # a 0-d array (reduction of the initial values) is mutable and would be shared
+        # by copies of the resulting Stairs; return a scalar instead
+        return result[()] if result.ndim == 0 else result
 
     return logical_func
 
